@@ -3,6 +3,8 @@
 Everything is drawn from the PRNG handed in; which features are on is drawn
 first, values second.
 """
+import random
+
 from . import gen_cmd
 from . import gen_input
 from . import reftok
@@ -72,7 +74,8 @@ def base_spec(rng,
               model_style=None,
               feats=None,
               out_modes=('', '', '--pretty-print', '--wrap-lines'),
-              text=None):
+              text=None,
+              p_idc=0.3):
     if text is None:
         text = gen_text(rng, small=small, feats=feats)
     toks = reftok.tokenize(text)
@@ -117,6 +120,18 @@ def base_spec(rng,
         'strategy': strat,
         'jobs': j,
     }
+    # pre-emption points at accesses to the shared node-id counter (a
+    # multiprocessing.Value used by all processes); drawn from a generator of
+    # their own so that the rest of the case does not depend on them
+    r2 = random.Random(spec['seed'] * 7 + 1)
+    if r2.random() < p_idc:
+        spec['sched']['idc_points'] = sorted({
+            int(10**r2.uniform(0.5, 4.5))
+            for _ in range(r2.choice([1, 2, 3, 6, 12, 24]))
+        })
+        if r2.random() < 0.4:
+            # dense: every n-th access
+            spec['sched']['idc_every'] = r2.choice([5, 17, 101, 1009])
     return spec
 
 
